@@ -511,6 +511,16 @@ Proof.
     apply dec_prefix_le in E'. lia.
 Qed.
 
+Lemma tokenise_tok c t s :
+  token_at c (pat t ++ s) = Some t -> tokenise c 0 (pat t ++ s) = Tok t :: tokenise c 0 s.
+Proof.
+  intros Ht. pose proof (pat_nonempty t) as Hne.
+  remember (pat t) as pt eqn:Ep. destruct pt as [|p0 ptl]; [congruence|].
+  change ((p0 :: ptl) ++ s) with (p0 :: (ptl ++ s)) in *. cbn [tokenise]. rewrite Ht. f_equal.
+  rewrite <- Ep. replace (length (p0 :: ptl) - 1)%nat with (length ptl) by (simpl; lia).
+  apply tokenise_skip.
+Qed.
+
 Lemma tokenise_one_group c k :
   (1 <= k <= ngroups c)%nat -> tokenise c 0 (pat_g k) = [Tok (TG k)].
 Proof.
@@ -519,11 +529,7 @@ Proof.
   { unfold token_at. replace (prefixb pat_path (pat_g k)) with false by reflexivity.
     replace (prefixb pat_query (pat_g k)) with false by reflexivity.
     rewrite !andb_false_r. now rewrite find_g_exact. }
-  change (pat_g k) with (36 :: 71 :: dec k) at 1. cbn [tokenise].
-  change (36 :: 71 :: dec k) with (pat_g k). rewrite Ht. f_equal.
-  change (pat (TG k)) with (36 :: 71 :: dec k).
-  replace (length (36 :: 71 :: dec k) - 1)%nat with (length (71 :: dec k)) by (simpl; lia).
-  rewrite <- (app_nil_r (71 :: dec k)) at 2. now rewrite tokenise_skip.
+  pose proof (tokenise_tok c (TG k) []) as H. rewrite app_nil_r in H. exact (H Ht).
 Qed.
 
 (* $G<k> alone is group k, for every k up to the number of groups: multi-digit indices included *)
@@ -582,3 +588,18 @@ Lemma dest_refuted_stray_dollar :
   dollar_free [71; 49] /\ Forall dollar_free w3_ms /\ resolve_dest w3_t [71; 49] w3_ms = [71; 49] /\
   single_pass_dest w3_t [71; 49] w3_ms = [36; 71; 49].
 Proof. split; [|split]; [repeat constructor; lia | repeat constructor; lia | split; vm_compute; reflexivity]. Qed.
+
+Lemma source_full_statement_refuted :
+  ~ (forall t ms q, Forall dollar_free ms -> resolve_source t ms q = single_pass_source t ms q).
+Proof.
+  intros H. destruct source_refuted_adjacent as (Hf & H1 & H2).
+  specialize (H w2_t w2_ms [] Hf). rewrite H1, H2 in H. discriminate.
+Qed.
+
+Lemma dest_full_statement_refuted :
+  ~ (forall t path ms, dollar_free path -> Forall dollar_free ms ->
+                       resolve_dest t path ms = single_pass_dest t path ms).
+Proof.
+  intros H. destruct dest_refuted_stray_dollar as (Hp & Hf & H1 & H2).
+  specialize (H w3_t [71; 49] w3_ms Hp Hf). rewrite H1, H2 in H. discriminate.
+Qed.
